@@ -3,6 +3,7 @@
 boundary, and joining boundary-free non-empty pieces with `"\n "` splits back into those pieces.
 -/
 import DebInspector.Model.Debcon
+import DebInspector.Proofs.StrLemmas
 
 namespace Proofs.Splitlines
 open Py Model.Debcon
